@@ -50,6 +50,34 @@ fn diagram(r: &mut Rng, graph_like: bool) -> Graph {
     g
 }
 
+/// a star: one centre with a phase the matchers care about, 1-4 spiders around it of either colour on either kind of wire, now and then
+/// joined among themselves, each possibly carrying a boundary — the near-misses of the side conditions
+fn star(r: &mut Rng) -> Graph {
+    let mut g = Graph::new();
+    let phases: [(i64, i64); 6] = [(0, 1), (1, 1), (1, 2), (-1, 2), (1, 4), (0, 1)];
+    let (n, d) = phases[r.below(6) as usize];
+    let c = g.add_vertex_with_phase(if r.below(4) == 0 { VType::X } else { VType::Z }, Rational64::new(n, d));
+    let k = 1 + r.below(4) as usize;
+    let mut around = vec![];
+    let (mut ins, mut outs) = (vec![], vec![]);
+    // mode 0: mostly graph-like; 1: anything; 2: every neighbour is a Z spider behind a Hadamard wire OR its colour-changed twin
+    // (an X spider behind a plain wire) — locally equivalent, but not for rules that join the neighbours among themselves
+    let mode = r.below(3);
+    for _ in 0..k {
+        let odd = r.below(if mode == 0 { 5 } else { 2 }) == 0;
+        let (n, d) = phases[r.below(6) as usize];
+        let w = g.add_vertex_with_phase(if odd { VType::X } else { VType::Z }, Rational64::new(n, d));
+        let odd_e = if mode == 2 { odd } else { r.below(if mode == 0 { 5 } else { 2 }) == 0 };
+        g.add_edge_with_type(c, w, if odd_e { EType::N } else { EType::H });
+        if r.below(2) == 0 { let b = g.add_vertex(VType::B); g.add_edge_with_type(w, b, if r.below(4) == 0 { EType::H } else { EType::N }); if r.below(2) == 0 { ins.push(b) } else { outs.push(b) } }
+        around.push(w);
+    }
+    for i in 0..k { for j in i + 1..k { if r.below(3) == 0 { g.add_edge_with_type(around[i], around[j], if r.below(4) == 0 { EType::N } else { EType::H }); } } }
+    if r.below(3) == 0 { let b = g.add_vertex(VType::B); g.add_edge_with_type(c, b, if r.below(3) == 0 { EType::H } else { EType::N }); outs.push(b); }
+    g.set_inputs(ins); g.set_outputs(outs);
+    g
+}
+
 fn same_map(a: &Graph, b: &Graph) -> Result<(), String> {
     let (ta, tb) = (guard(|| a.to_tensor4())?, guard(|| b.to_tensor4())?);
     if ta == tb { Ok(()) } else { Err(format!("the exact tensor changed: {:?} became {:?}", ta.iter().take(8).collect::<Vec<_>>(), tb.iter().take(8).collect::<Vec<_>>())) }
@@ -66,9 +94,9 @@ fn describe(g: &Graph) -> String {
 
 pub fn run(cx: &mut Ctx) {
     let seed: u64 = std::env::var("VERIF_SEED").ok().and_then(|s| s.parse().ok()).unwrap_or(0);
-    let ndiag = 120 * crate::scale();
+    let ndiag = 180 * crate::scale();
     let mut r = Rng(0x5eed_c04 ^ seed.wrapping_mul(0x9e3779b97f4a7c15));
-    let diagrams: Vec<Graph> = (0..ndiag).map(|k| diagram(&mut r, k % 2 == 1)).collect();
+    let diagrams: Vec<Graph> = (0..ndiag).map(|k| if k % 3 == 2 { star(&mut r) } else { diagram(&mut r, k % 3 == 1) }).collect();
     let rules1: Vec<M1> = vec![
         ("pi_copy", |g, v| check_pi_copy(g, v), |g, v| pi_copy(g, v), |g, v| pi_copy_unchecked(g, v)),
         ("remove_id", |g, v| check_remove_id(g, v), |g, v| remove_id(g, v), |g, v| remove_id_unchecked(g, v)),
